@@ -29,6 +29,7 @@ import (
 
 	"github.com/lindb/lindb/kv/table"
 	"github.com/lindb/lindb/kv/version"
+	"github.com/lindb/lindb/pkg/verifhook"
 )
 
 //go:generate mockgen -source ./family.go -destination=./family_mock.go -package kv
@@ -285,6 +286,7 @@ func (f *family) removePendingOutput(fileNumber table.FileNumber) {
 
 // deleteSST deletes the temp sst file, if flush or compact fail
 func (f *family) deleteSST(fileNumber table.FileNumber) error {
+	verifhook.Yield("kv.fs.removeTable")
 	if err := removeDirFunc(filepath.Join(f.familyPath, version.Table(fileNumber))); err != nil {
 		return err
 	}
